@@ -1,6 +1,7 @@
 import VfsModel.Path
 import Driver.Codec
 import Driver.WorldDriver
+import Driver.ConcDriver
 open Vfs Vfs.Driver
 
 def stepPath (toks : List String) : Option String :=
@@ -20,16 +21,24 @@ def stepPath (toks : List String) : Option String :=
     pure (match extensionInternal p with | none => "none" | some e => "some " ++ encStr e)
   | _ => none
 
-def step (s : DState) (line : String) : String × DState :=
+structure AllState where
+  d : DState := {}
+  c : CState := {}
+  deriving Inhabited
+
+def step (s : AllState) (line : String) : String × AllState :=
   let toks := (line.trimAscii.toString.splitOn " ").filter (· ≠ "")
   match stepPath toks with
   | some out => (out, s)
   | none =>
-    match stepWorld s toks with
-    | some r => r
-    | none => ("bad-op", s)
+    match stepWorld s.d toks with
+    | some (o, d') => (o, { s with d := d' })
+    | none =>
+      match stepConc s.c toks with
+      | some (o, c') => (o, { s with c := c' })
+      | none => ("bad-op", s)
 
-partial def loop (h : IO.FS.Stream) (out : IO.FS.Stream) (s : DState) : IO Unit := do
+partial def loop (h : IO.FS.Stream) (out : IO.FS.Stream) (s : AllState) : IO Unit := do
   let line ← h.getLine
   if line.isEmpty then return ()
   let (o, s') := step s line
